@@ -86,3 +86,72 @@ def register(reg, S):
         + [("time-signature-at-tick-0", "len(result.time_signature_events) >= 1 and result.time_signature_events[0].tick == 0")],
         ghosts=[Ghost(parse_anchor, ghost_data)],
         props=["C01", "C08", "C12", "C14", "C15"]))
+
+    # ------------------------------------------------------------------ GlobalEventsTrack.from_chart_lines
+    L, SE, T = SECTIONS["globalevents"][0]
+    gpaths = [L, SE, T]
+    be_pre = [("wf-sorted", "sorted_ticks(bpm_events)"),
+              ("nonempty-first0", "len(bpm_events.events) >= 1 and bpm_events.events[0].tick == 0 and bpm_events.resolution >= 1"),
+              ("envelope", "ENV(bpm_events)")]
+    gtok = "forall(0, len(lines), lambda i: " + " and ".join(
+        f"implies(rxm('{p}', lines[i]), pyint(rxg('{p}', 1, lines[i])) <= {BIG})" for p in gpaths) + ")"
+    gl = ["g_lyric_data", "g_section_data", "g_text_data"]
+    ens = dispatcher_clauses(reg, gpaths, gl, "len(lines)")
+    for kind, dlist, field in (("TextEvent", "g_text_data", "text_events"), ("SectionEvent", "g_section_data", "section_events"),
+                               ("LyricEvent", "g_lyric_data", "lyric_events")):
+        c = reg.by_name(f"{key}[{kind}]")
+        ens += [(f"{field}/{n}", subst(t, {"datas": dlist, "result": f"result.{field}", res: "bpm_events"})) for n, t in c.ensures]
+    zero_gov = " or ".join(
+        f"({first_is(gpaths, j, 'lines[i]')} and bpm_events.events[gov(bpm_events, pyint(rxg('{p}', 1, lines[i])))].bpm <= 0)"
+        for j, p in enumerate(gpaths))
+    reg.add(Contract(
+        "chartparse.globalevents:GlobalEventsTrack.from_chart_lines",
+        params=dict(cls=_cls("chartparse.globalevents:GlobalEventsTrack"), lines=SeqS(STR), bpm_events=S["BPMEvents"]),
+        result=S["GlobalEventsTrack"],
+        ghost_results=dict(GH_SHAPES, g_lyric_data=SeqS(S["LyricData"]), g_section_data=SeqS(S["SectionData"]), g_text_data=SeqS(S["TextData"])),
+        requires=be_pre + [("tokens-bounded", gtok)],
+        may_raise=["ValueError"],
+        must_raise=[f"exists(0, len(lines), lambda i: {zero_gov})"],
+        ensures=ens,
+        ghosts=[Ghost("(text_data, section_data, lyric_data) = cls._parse_data_from_chart_lines(lines)",
+                      "g_text_data = text_data\ng_section_data = section_data\ng_lyric_data = lyric_data\n" + GH_CODE)],
+        props=["C01", "C09", "C11", "C14", "C15"]))
+
+    # ------------------------------------------------------------------ InstrumentTrack.from_chart_lines
+    N, SP, E = SECTIONS["instrument"][0]
+    ipaths = [N, SP, E]
+    isN = lambda i: f"rxm('{N}', lines[{i}])"
+    ntick = lambda i: f"pyint(rxg('{N}', 1, lines[{i}]))"
+    nidx = lambda i: f"pyint(rxg('{N}', 2, lines[{i}]))"
+    nlen = lambda i: f"pyint(rxg('{N}', 3, lines[{i}]))"
+    itok = (f"forall(0, len(lines), lambda i: implies({isN('i')}, {ntick('i')} <= {BIG} and {nlen('i')} <= {BIG}) "
+            f"and implies(rxm('{SP}', lines[i]), pyint(rxg('{SP}', 1, lines[i])) <= {BIG}) "
+            f"and implies(rxm('{E}', lines[i]), pyint(rxg('{E}', 1, lines[i])) <= {BIG}))")
+    canonical = [
+        ("note-lines-sorted-by-tick", f"forall(0, len(lines), lambda i: forall(i + 1, len(lines), lambda j: implies({isN('i')} and {isN('j')}, {ntick('i')} <= {ntick('j')})))"),
+        ("one-line-per-index-per-tick", f"forall(0, len(lines), lambda i: forall(i + 1, len(lines), lambda j: implies({isN('i')} and {isN('j')} and {ntick('i')} == {ntick('j')}, {nidx('i')} != {nidx('j')} and {nidx('j')} != 7)))"),
+    ]
+    il = ["g_note_data", "g_sp_data", "g_track_data"]
+    ens = [("labelled", "result.instrument == instrument and result.difficulty == difficulty")]
+    ens += dispatcher_clauses(reg, ipaths, il, "len(lines)")
+    for kind, dlist, field in (("StarPowerEvent", "g_sp_data", "star_power_events"), ("TrackEvent", "g_track_data", "track_events")):
+        c = reg.by_name(f"{key}[{kind}]")
+        ens += [(f"{field}/{n}", subst(t, {"datas": dlist, "result": f"result.{field}", res: "bpm_events"})) for n, t in c.ensures]
+    nb = reg.by_name("chartparse.instrument:InstrumentTrack._build_note_events_from_data")
+    ens += [("notes/" + n, subst(t, {"datas": "g_note_data", "result": "result.note_events", "star_power_events": "result.star_power_events"}))
+            for n, t in nb.ensures]
+    reg.add(Contract(
+        "chartparse.instrument:InstrumentTrack.from_chart_lines",
+        params=dict(cls=_cls("chartparse.instrument:InstrumentTrack"), instrument=S["Instrument"], difficulty=S["Difficulty"],
+                    lines=SeqS(STR), bpm_events=S["BPMEvents"]),
+        result=S["InstrumentTrack"],
+        ghost_results=dict(GH_SHAPES, g_note_data=SeqS(S["NoteData"]), g_sp_data=SeqS(S["StarPowerDataLine"]),
+                           g_track_data=SeqS(S["TrackData"]), g_lo=SeqS(INT), g_hi=SeqS(INT), g_c=SeqS(INT)),
+        requires=be_pre + [("res-range", "1 <= bpm_events.resolution <= 2**50"), ("tokens-bounded", itok)] + canonical,
+        may_raise=["ValueError"],
+        ensures=ens,
+        ghosts=[Ghost("(note_data, star_power_data, track_data) = cls._parse_data_from_chart_lines(lines)",
+                      "g_note_data = note_data\ng_sp_data = star_power_data\ng_track_data = track_data\n" + GH_CODE),
+                Ghost("note_events = cls._build_note_events_from_data(note_data, star_power_events, bpm_events)",
+                      "g_lo = callee_ghost('g_lo')\ng_hi = callee_ghost('g_hi')\ng_c = callee_ghost('g_c')")],
+        props=["C02", "C03", "C04", "C05", "C07", "C11", "C13", "C14"]))
